@@ -1,7 +1,9 @@
-"""A wall-clock guard for single conversions (search oracles).  Uses SIGALRM/setitimer, so it only arms itself in the main
+"""A CPU-time guard for single conversions (search oracles): the limit counts the CPU time of this process (ITIMER_PROF),
+not wall-clock time, so that a loaded machine cannot trip it (a wall-clock limit raised a false alarm once).  Uses setitimer, so it only arms itself in the main
 thread of a process on a platform that has it (search shards are separate processes, each calling from its main thread);
 elsewhere it is a no-op.  Nothing here is a source of randomness: the limit is generous (default 20 s against conversions
 that take milliseconds) and only an endless loop trips it."""
+# history: until 2026-10-01 this used ITIMER_REAL (wall clock)
 import signal, threading
 from contextlib import contextmanager
 
@@ -17,11 +19,11 @@ def time_limit(seconds=20.0):
         yield; return
 
     def onalarm(signum, frame):
-        raise ConversionTimeout('no result within %s s' % seconds)
-    old = signal.signal(signal.SIGALRM, onalarm)
-    signal.setitimer(signal.ITIMER_REAL, seconds)
+        raise ConversionTimeout('no result within %s s of CPU time' % seconds)
+    old = signal.signal(signal.SIGPROF, onalarm)
+    signal.setitimer(signal.ITIMER_PROF, seconds)
     try:
         yield
     finally:
-        signal.setitimer(signal.ITIMER_REAL, 0)
-        signal.signal(signal.SIGALRM, old)
+        signal.setitimer(signal.ITIMER_PROF, 0)
+        signal.signal(signal.SIGPROF, old)
